@@ -44,12 +44,13 @@ const (
 	OpStep // returns global step counter without being a scheduling point
 	OpTrySend
 	OpTryRecv
+	OpPeekClock // harness: read the virtual clock without a scheduling point
 	OpSetClock // harness: set the virtual clock to arg (not a scheduling point)
 	OpSendWait // internal: sender committed and blocked in the channel
 	OpRecvWait // internal: receiver committed and blocked in the channel
 )
 
-var opNames = [...]string{"start", "done", "lock", "lockwait", "unlock", "rlock", "runlock", "send", "recv", "resume", "close", "yield", "now", "choose", "choosefree", "spawn", "step", "trysend", "tryrecv", "setclock", "sendwait", "recvwait"}
+var opNames = [...]string{"start", "done", "lock", "lockwait", "unlock", "rlock", "runlock", "send", "recv", "resume", "close", "yield", "now", "choose", "choosefree", "spawn", "step", "trysend", "tryrecv", "peekclock", "setclock", "sendwait", "recvwait"}
 
 func (o Op) String() string { return opNames[o] }
 
@@ -152,6 +153,14 @@ func Yield(res uintptr) int64 {
 		return 0
 	}
 	return Point(t, OpYield, res, 0)
+}
+
+// PeekClock reads the virtual clock without creating a scheduling point.
+func PeekClock() int64 {
+	if t := Cur(); t >= 0 {
+		return Point(t, OpPeekClock, 0, 0)
+	}
+	return 0
 }
 
 // SetClock sets the virtual clock from a controlled thread (harness use).
@@ -514,6 +523,8 @@ func (r *run) collect() {
 		case OpStep:
 			r.step++
 			batonGrant(int(m.tid), r.step)
+		case OpPeekClock:
+			batonGrant(int(m.tid), r.clock)
 		case OpSetClock:
 			r.clock = m.arg
 			batonGrant(int(m.tid), 0)
